@@ -130,6 +130,7 @@ static void COEmcySend(CO_EMCY *emcy, uint8_t err, CO_EMCY_USR *usr, uint8_t sta
     CO_NODE     *node;
     CO_DICT      *dir;
     CO_EMCY_TBL *data;
+    CO_ERR       rd;
     uint8_t      n;
 
     ASSERT_PTR(emcy->Node);
@@ -145,8 +146,9 @@ static void COEmcySend(CO_EMCY *emcy, uint8_t err, CO_EMCY_USR *usr, uint8_t sta
     dir  = &node->Dict;
     data = &emcy->Root[err];
 
-    (void)CODictRdLong(dir, CO_DEV(0x1014,0), &frm.Identifier);
-    if ((frm.Identifier & CO_EMCY_COBID_OFF) != 0) {
+    rd = CODictRdLong(dir, CO_DEV(0x1014,0), &frm.Identifier);
+    if ((rd != CO_ERR_NONE) ||
+        ((frm.Identifier & CO_EMCY_COBID_OFF) != 0)) {
         return;                                   /* EMCY does not exist */
     }
     frm.DLC = 8;
